@@ -242,6 +242,12 @@ class Ctx:
         self._pin(z, val)
         return val
 
+    def norm(self, t: Any) -> Any:
+        """simplify(t) with the symbols realised on this path replaced by their values."""
+        if self.pins:
+            t = z3.substitute(t, *self.pins)
+        return z3.simplify(t)
+
     def _pin(self, z: Any, val: Fraction) -> None:
         if z3.is_const(z) and z.decl().kind() == z3.Z3_OP_UNINTERPRETED:
             self.pins.append((z, RV(val)))
